@@ -230,6 +230,11 @@ was regenerated in place.  Uploads in progress do not survive (`StorageServer.__
 their recorded write enabler *and recorded nodeid*, and advisories are what is on disk. -/
 def migrate (st : State) (nodeid : Bytes) : State := { st with up := [], myNodeid := nodeid }
 
+/-- `BucketWriter._abort_due_to_timeout` (30 minutes without a write) and `BucketWriter.disconnected`: not a request,
+no secret involved — the writer aborts itself: the incoming file is removed and the close handler makes the HTTP
+layer forget the upload and its secret.  Nothing else is touched; without such an upload it is a no-op. -/
+def expire (st : State) (k : Key) : State := { st with up := eraseK k st.up }
+
 def hRtw (st : State) (sec : SecretsDict) (si : String) (a : RtwArgs) : State × Response :=
   match ssRtw st si (getS sec .writeEnabler) (getS sec .leaseRenew, getS sec .leaseCancel) a with
   | none => (st, ⟨401, .empty⟩)
@@ -354,5 +359,18 @@ def run (swissnum : Bytes) (st : State) : List Request → State × List Respons
     let r := step swissnum st rq
     let rr := run swissnum r.1 rest
     (rr.1, r.2 :: rr.2)
+
+/-- what happens to a server: requests, and uploads timing out / their client disconnecting -/
+inductive Event
+  | request (rq : Request)
+  | expire (k : Key)
+
+def stepEvent (swissnum : Bytes) (st : State) : Event → State
+  | .request rq => (step swissnum st rq).1
+  | .expire k => expire st k
+
+def runEvents (swissnum : Bytes) (st : State) : List Event → State
+  | [] => st
+  | e :: rest => runEvents swissnum (stepEvent swissnum st e) rest
 
 end Tahoe.Http
